@@ -79,7 +79,7 @@ class Check:
     quick_runs = 1000
     thorough_runs = 20000
     chunk = 50
-    run_wall_cap = 120.0  # seconds of wall time a single chunk may need at most
+    run_wall_cap = 900.0  # seconds of wall time a single chunk may need at most (hang detector of last resort)
 
     def gen(self, seed: int, index: int, tier: str) -> dict[str, Any]:
         raise NotImplementedError
